@@ -394,5 +394,37 @@ theorem factoryOfText_ok {name : LibName} {t : String} {f : Factory} (h : factor
   unfold factoryOfText at h
   exact factoryOfText_go_ok t name _ _ _ f .start h
 
+/-- an empty file defines no library: `from_char_stream` reports `LibraryNotFound` -/
+theorem factoryOfText_empty (n : LibName) : factoryOfText n "" = .error (.libNotFound, none) := by
+  have hs : Lex.skipAtmosphere false [] (1, 1) = ([], (1, 1)) := by
+    rw [Lex.skipAtmosphere]
+  have h0 : Lex.all [] = ([], none) := by
+    simp [Lex.all, Lex.allAux, Lex.next, hs, Lex.token]
+  have h1 : "".toList = [] := rfl
+  unfold factoryOfText
+  simp only [h1, Read.ofText, h0, List.map_nil, List.length_nil]
+  rw [factoryOfText.go]
+  simp [Read.nextDatum, Read.advance, bind, Except.bind, Read.currentDatum, Read.fuelFor]
+
+/-- a file that cannot give a factory: the error, and the state untouched -/
+theorem getLibrary_file_error {fuel : Nat} {st : State} {n : LibName} {loc : Loc} {t : String} {e : SErr}
+    (hi : libLookup st.instances n = none) (hf : libLookup st.factories n = none)
+    (hfile : st.files.lookup (libPath n) = some (.text t)) (he : factoryOfText n t = .error e) :
+    Interp.getLibrary (fuel + 1) st n loc = (.error e, st) := by
+  rw [getLibrary_succ_eq, hi]
+  simp [findFactory, hf, hfile, he]
+
+theorem evalImportSet_direct_eq {fuel : Nat} {st : State} {n : LibName} {loc : Loc} (hip : n ∉ st.inProgress) :
+    evalImportSet (fuel + 1) st (.direct n loc) =
+      ((Interp.getLibrary fuel { st with inProgress := n :: st.inProgress } n loc).1,
+       { (Interp.getLibrary fuel { st with inProgress := n :: st.inProgress } n loc).2 with
+          inProgress := st.inProgress }) := by
+  rw [evalImportSet]
+  have : st.inProgress.contains n = false := by simpa using hip
+  simp only [this]
+  have hinv := (invAt storeRel_true fuel).getLibrary
+    (st := { st with inProgress := n :: st.inProgress }) (name := n) (loc := loc) (r := _) (st' := _) rfl
+  simp [hinv.inProgress]
+
 end Interp
 end Ruschm
